@@ -107,6 +107,40 @@ pub extern "C" fn c18_rcu() {
     cover(1);
 }
 
+// ---- rcu loses an attempt to a (re-entrant) writer; the value it still holds through its stale guard is
+// ---- destroyed when it lets go of that guard before retrying, and that destructor panics
+
+extern "C-unwind" fn body_rcu_drop() {
+    let fresh = bomb(9);
+    c().store(fresh.clone());
+    drop(fresh); // the container is the only owner of bomb 9
+    let r = c().rcu(|v| {
+        st().attempts += 1;
+        if st().attempts == 1 {
+            if st().arm == 1 {
+                v.armed.set(true);
+            }
+            // a writer gets in between: pays rcu's debt on bomb 9, so rcu's stale guard is its last owner
+            c().store(pool(1).clone());
+        }
+        pool(2).clone()
+    });
+    drop(r);
+}
+
+#[no_mangle]
+pub extern "C" fn c18_rcu_drop() {
+    setup();
+    let arm = nondet(1);
+    assume(arm <= 1);
+    st().arm = arm;
+    let panicked = try_(body_rcu_drop);
+    vassert(panicked == (arm == 1), 1);
+    // arm==1: the first attempt was lost (container holds pool 1), the panic came before the retry
+    check_quiescent(if arm == 1 { 1 } else { 2 }, 10);
+    cover(1);
+}
+
 // ---- the destructor of the replaced value panics inside store()
 
 extern "C-unwind" fn body_store_drop() {
